@@ -253,6 +253,11 @@ int main(int argc, char** argv) {
         fprintf(fc, "V %s %d", prec, mask); emit_xc();
         fprintf(fi, "%llu\n", (unsigned long long)(dbl ? call_value<double>(t, x.data(), c.data(), mask) : call_value<float>(t, x.data(), c.data(), mask)));
         stats["mask_bits_" + std::to_string(__builtin_popcount(mask))]++;
+        { // the same derivative through the evaluator object (whatever routine get_evaluator dispatches to), judged like the V line
+          uint64_t ve = dbl ? cbits(t.get_evaluator<double>().ndsplineeval(x.data(), c.data(), mask)) : cbits(t.get_evaluator<float>().ndsplineeval(x.data(), c.data(), mask));
+          fprintf(fc, "U %s %d", prec, mask); emit_xc(); fprintf(fi, "%llu\n", (unsigned long long)ve); stats["mask_evaluator"]++;
+          if (!dbl) { fprintf(fc, "U f %d", mask); emit_xc(); fprintf(fi, "%llu\n", (unsigned long long)cbits(ndsplineeval(&ct, x.data(), c.data(), mask))); stats["mask_c_interface"]++; }
+        }
         // value-plus-gradient: every lane must be the value / single-derivative evaluation (checked exactly below)
         if (nd + 1 <= 8) {
           int dsel = r.range(0, nd - 1);
@@ -267,6 +272,16 @@ int main(int argc, char** argv) {
           if (cbits(gm[0]) != v0) { path_mismatch++; fprintf(fc, "X gradient value lane != plain value\n"); fprintf(fi, "mismatch %llu %llu\n", (unsigned long long)cbits(gm[0]), (unsigned long long)v0); }
           if (cbits(gm[dsel + 1]) != vd) { path_mismatch++; fprintf(fc, "X gradient lane %d != single-derivative evaluation\n", dsel + 1); fprintf(fi, "mismatch %llu %llu\n", (unsigned long long)cbits(gm[dsel + 1]), (unsigned long long)vd); }
           stats["gradient_points"]++;
+          // the evaluator object's gradient (its own dispatched kernel and scratch arrays) and the C wrapper: lane by lane
+          // the member's lanes, which are judged against the exact derivative through the V lines above
+          std::vector<double> ge(nd + 1, -7);
+          if (dbl) t.get_evaluator<double>().ndsplineeval_gradient(x.data(), c.data(), ge.data()); else t.get_evaluator<float>().ndsplineeval_gradient(x.data(), c.data(), ge.data());
+          fprintf(fc, "G %s", prec); emit_xc();
+          for (uint32_t j = 0; j <= nd; j++) fprintf(fi, "%s%llu", j ? " " : "", (unsigned long long)cbits(ge[j])); fprintf(fi, "\n");
+          for (uint32_t j = 0; j <= nd; j++) if (cbits(ge[j]) != cbits(gm[j])) { path_mismatch++; fprintf(fc, "X evaluator<%s> gradient lane %u != member gradient lane\n", dbl ? "double" : "float", j); fprintf(fi, "mismatch %llu %llu\n", (unsigned long long)cbits(ge[j]), (unsigned long long)cbits(gm[j])); break; }
+          if (!dbl) { std::vector<double> gc(nd + 1, -7); ndsplineeval_gradient(&ct, x.data(), c.data(), gc.data());
+            for (uint32_t j = 0; j <= nd; j++) if (cbits(gc[j]) != cbits(gm[j])) { path_mismatch++; fprintf(fc, "X C gradient lane %u != member gradient lane\n", j); fprintf(fi, "mismatch %llu %llu\n", (unsigned long long)cbits(gc[j]), (unsigned long long)cbits(gm[j])); break; } }
+          stats["gradient_evaluator_points"]++;
         }
         // arbitrary-order derivative (always float storage in the table member)
         std::vector<unsigned> ks(nd); bool big = false;
